@@ -169,12 +169,8 @@ inline Outcome runSparseLUCase(const KV& c)
             if (A(i, j) != 0)
                 nnzA++;
         }
-    if (!child && minPivot < 1e-9L) {
-        // the main campaign keeps pivots away from the solver's absolute 1e-12 exit (finding F9, fixed);
-        // the 'tiny' class runs in a child process instead
-        o.cls("discarded_tiny_pivot_inprocess");
-        return o;
-    }
+    // (finding F9 - process exit for |u_ii| < 1e-12 - is fixed: small pivots run in-process; the 'tiny' class still uses a
+    // forked child so that a process exit would be observed as a failed oracle rather than as a dead worker)
     // pivoted reference on the row-equilibrated matrix (partial pivoting alone is not reliable when
     // rows differ by many orders of magnitude); scaling by powers of two is exact
     std::vector<LD> rowScale(n, 1.0L);
@@ -477,14 +473,16 @@ inline KV genSparseLUCase()
         }
     }
     // row scaling over many orders of magnitude
-    int sc = rweighted({3, 2, 2, 1});
-    double span = sc == 0 ? 0 : (sc == 1 ? 3 : (sc == 2 ? 6 : 15));
+    int sc = rweighted({3, 2, 2, 1, 1, 1});
+    double span = sc == 0 ? 0 : (sc == 1 ? 3 : (sc == 2 ? 6 : (sc == 3 ? 15 : (sc == 4 ? 9 : 12))));
     bool child  = false;
+    if (sc >= 4)
+        cls += "_widescaled"; // rows 1e-9..1e9 resp. 1e-12..1e12: later rows may be 1e-18 of an earlier pivot row
     if (sc == 3) {
         cls += "_tiny";
         child = true; // scales reach 1e-15: solved in a forked child
     }
-    else if (sc > 0)
+    else if (sc > 0 && sc < 4)
         cls += "_scaled";
     if (span > 0)
         for (int i = 0; i < n; i++) {
